@@ -54,12 +54,45 @@
 (*    interpolant the code documents IS the Lagrange polynomial through all *)
 (*    nodes - expected values are exact rationals for ANY solution.         *)
 (*                                                                         *)
+(* modes of the kinds "sseq" / "tseq" (field `mode` of the problem):        *)
+(*    "grid" : the sequences above.                                         *)
+(*    "param": PARAMETER ARRAYS WITH AN IDENTITY.  The user owns two arrays *)
+(*       P and Q (`heap`: object -> current value); MutateParam(o, th) is   *)
+(*       the IN-PLACE modification of the array o (same identity, new       *)
+(*       value), Use(a) the call pde.assemble(a) . solve() . observe() on   *)
+(*       the PDE object ("pipeline") or PDEModel.forward(a) for a = the     *)
+(*       array itself or a copy of it.  The object remembers the IDENTITY    *)
+(*       of the array assembled last (`parobj`) next to the VALUE its        *)
+(*       assembled system belongs to (`par`); SeqParamCurrent requires the  *)
+(*       system, the solution and the observation of every Use to belong to *)
+(*       the CURRENT value of the supplied array, SeqSameParamSameValue     *)
+(*       that equal parameter values give equal results (copy vs same       *)
+(*       object, f(th1).f(th2).f(th1): third = first), SeqArgsUntouched     *)
+(*       that no call but MutateParam changes an array of the user.         *)
+(*    "ginp" : GRID ARRAYS WITH AN IDENTITY.  The arrays handed over as      *)
+(*       grid_sol / grid_obs / time_obs stay with the user (`live`);        *)
+(*       MutateGrid(slot, v) modifies one in place, Reassign(slot) hands    *)
+(*       the SAME array over again (pde.grid_obs = g; for time_obs, which   *)
+(*       has no setter, a new object is constructed with the same arrays).  *)
+(*       The documented ways to choose a grid are the constructor and the   *)
+(*       setters, so the grid of the object is the value at the last        *)
+(*       hand-over; between an in-place modification and the next hand-over *)
+(*       nothing is specified (entries `defined = FALSE`: the replayer       *)
+(*       records which grid the library used, never a violation); after     *)
+(*       Reassign the observation has to be the one for the new values.     *)
+(*                                                                         *)
 (* Named deviations (off in the deciding configurations):                  *)
 (*    OperatorAtOldTime : backward Euler assembles at t_idx instead of      *)
 (*                        t_idx+1  -> the discrete equation is violated     *)
 (*    DtFromNextInterval: dt = t_idx+2 - t_idx+1                            *)
 (*    DevStaleGridFlag  : the grid_obs setter does not refresh the cached   *)
 (*                        equality flag -> SeqObserveCurrent is violated    *)
+(*    DevAssembleSkipsSameObject: assemble returns early when it is called  *)
+(*                        with the array OBJECT assembled last (identity     *)
+(*                        test) -> SeqParamCurrent is violated               *)
+(*    DevSetterSkipsSameObject  : a grid setter called with the array object *)
+(*                        it already holds does not refresh the cached flag  *)
+(*                        -> SeqObserveCurrent is violated                   *)
 (***************************************************************************)
 EXTENDS MatQ, FiniteSets, TLC, Json
 
@@ -71,7 +104,12 @@ CONSTANTS Level,               \* 1 quick, 2 thorough (more parameters / grids /
           DtFromNextInterval,
           SeqDepth,            \* sseq / tseq: number of calls after construct - assemble - solve
           SeqSetters,          \* sseq / tseq: at most this many setter calls in one behaviour
-          DevStaleGridFlag     \* deviation: "the grid_obs setter does not refresh the cached equality flag"
+          DevStaleGridFlag,    \* deviation: "the grid_obs setter does not refresh the cached equality flag"
+          ParDepth,            \* mode "param": number of calls (Use / MutateParam) after construct - assemble(P) - solve
+          ParMutations,        \* mode "param": at most this many in-place modifications in one behaviour
+          GinpDepth,           \* mode "ginp": number of calls (Observe / Forward / MutateGrid / Reassign)
+          DevAssembleSkipsSameObject,   \* deviation: "assemble returns early for the parameter OBJECT assembled last"
+          DevSetterSkipsSameObject      \* deviation: "a grid setter given the array object it holds keeps the cached flag"
 
 VARIABLES pb,      \* the problem
           ph,      \* "new" / "run"
@@ -408,11 +446,12 @@ SeqT    == << Zero, Q(1, 2), One, Two >>                       \* non-uniform ti
 \* solution grids (same length; X1 shares the first and last node - and the length - with X0)
 SeqGridSolS == [X0 |-> << Zero, Q(1, 2), Two >>, X1 |-> << Zero, One, Two >>]
 SeqGridSolT == [X0 |-> << Zero, Q(1, 2), One, Two >>, X1 |-> << Zero, Q(1, 2), Q(3, 2), Two >>]
-\* observation grids: the two solution grids, coinciding nodes of both, points between the nodes
+\* observation grids: the two solution grids, coinciding nodes of both, points between the nodes;
+\* X2 (mode "ginp" only): as many nodes as the solution grids, so that an array can be turned into it IN PLACE
 SeqGridObsS == [X0 |-> SeqGridSolS.X0, X1 |-> SeqGridSolS.X1, sub |-> << Zero, Two >>,
-                off |-> << Q(1, 4), One, Q(3, 2), Q(7, 4) >>]
+                off |-> << Q(1, 4), One, Q(3, 2), Q(7, 4) >>, X2 |-> << Q(1, 4), One, Q(7, 4) >>]
 SeqGridObsT == [X0 |-> SeqGridSolT.X0, X1 |-> SeqGridSolT.X1, sub |-> << Q(1, 2), Two >>,
-                off |-> << Q(1, 4), One, Q(7, 4) >>]
+                off |-> << Q(1, 4), One, Q(7, 4) >>, X2 |-> << Q(1, 4), One, Q(3, 2), Q(7, 4) >>]
 \* observation times: final / all / coinciding subset with the final time / between the levels / one between / one coinciding
 SeqTimeObs  == [final |-> << Two >>, all |-> SeqT, sub |-> << Q(1, 2), Two >>, shift |-> << Q(3, 4), Q(3, 2) >>,
                 one |-> << Q(3, 2) >>, mid |-> << One >>]
@@ -428,16 +467,27 @@ SeqInitsS == { <<"none", "none", "id">>, <<"X1", "none", "sq">> }
              \cup (IF Level < 2 THEN {} ELSE { <<"off", "none", "first">>, <<"sub", "none", "id">>, <<"none", "none", "sq">> })
 SeqInitsT == { <<"none", "final", "id">>, <<"off", "all", "sq">> }
              \cup (IF Level < 2 THEN {} ELSE { <<"X1", "final", "sq">>, <<"none", "one", "id">>, <<"off", "final", "id">> })
+\* mode "param" (one observation time, so that PDEModel.forward is vector valued): interpolation + map / restriction
+ParInitsS == { <<"off", "none", "sq">> } \cup (IF Level < 2 THEN {} ELSE { <<"none", "none", "id">> })
+ParInitsT == { <<"none", "final", "id">> } \cup (IF Level < 2 THEN {} ELSE { <<"off", "one", "sq">> })
+\* mode "ginp": explicit observation grids of the length of the solution grid: equal to it / different from the start
+GinpInitsS == { <<"X0", "none", "id">>, <<"X1", "none", "sq">> }
+GinpInitsT == { <<"X0", "final", "id">>, <<"X1", "one", "sq">> }
 \* via = "pde"  : the calls are made on the PDE object (assemble / solve / observe);
 \* via = "model": the object is wrapped in a PDEModel and evaluated through PDEModel.forward, the setters act on
 \*                model.pde between the forward evaluations
+SeqProbS(mode, v, c) ==
+    [kind |-> "sseq", mode |-> mode, via |-> v, m |-> SeqMatS, th0 |-> <<1, -1>>, th1 |-> <<2, 1>>, th2 |-> <<0, 2>>,
+     go0 |-> c[1], to0 |-> c[2], omap |-> c[3]]
+SeqProbT(mode, v, c) ==
+    [kind |-> "tseq", mode |-> mode, via |-> v, m |-> SeqMatT, T |-> SeqT, method |-> "forward_euler",
+     th0 |-> <<1, -1>>, th1 |-> <<0, 2>>, th2 |-> <<2, 1>>, go0 |-> c[1], to0 |-> c[2], omap |-> c[3]]
 SeqProblems ==
-    { [kind |-> "sseq", via |-> v, m |-> SeqMatS, th0 |-> <<1, -1>>, th1 |-> <<2, 1>>, go0 |-> c[1], to0 |-> c[2], omap |-> c[3]] :
-        v \in {"pde", "model"}, c \in SeqInitsS }
-    \cup
-    { [kind |-> "tseq", via |-> v, m |-> SeqMatT, T |-> SeqT, method |-> "forward_euler", th0 |-> <<1, -1>>, th1 |-> <<0, 2>>,
-       go0 |-> c[1], to0 |-> c[2], omap |-> c[3]] :
-        v \in {"pde", "model"}, c \in SeqInitsT }
+    UNION { { SeqProbS("grid", v, c) : c \in SeqInitsS } \cup { SeqProbT("grid", v, c) : c \in SeqInitsT }
+            \cup { SeqProbS("param", v, c) : c \in ParInitsS } \cup { SeqProbT("param", v, c) : c \in ParInitsT }
+            \cup { SeqProbS("ginp", v, c) : c \in GinpInitsS } \cup { SeqProbT("ginp", v, c) : c \in GinpInitsT }
+            : v \in {"pde", "model"} }
+DepthOf(p) == CASE p.mode = "grid" -> SeqDepth [] p.mode = "param" -> ParDepth [] p.mode = "ginp" -> GinpDepth
 
 \* ---- Solve ---------------------------------------------------------------
 \* time levels 1..k of the documented recurrence (the same EulerStep as the action Step of kind "time")
@@ -483,31 +533,53 @@ ExactNow(p, o) == o.go = o.gs /\ (p.kind = "tseq" => o.to = << p.T[Len(p.T)] >>)
 MappedObs(p, v) == IF p.kind = "sseq" THEN ApplyMap(p.omap, v) ELSE <<>>
 
 \* ---- the object ------------------------------------------------------------
+\* gs, go, to : the grids / times of the object = the values at the last hand-over (constructor, setter)
+\* live       : mode "ginp": the CURRENT values of the user's arrays that were handed over (same identity)
+\* heap       : mode "param": the CURRENT values of the user's parameter arrays P and Q
+\* want       : the value the supplied parameter array had at the last assemble / forward call
+\* parobj     : the IDENTITY of the array assembled last ("fresh": an array nobody else holds, e.g. a copy)
+\* par        : the value the assembled system belongs to (implementation shaped: see DevAssembleSkipsSameObject)
 SeqNew(p) ==
     LET gs == GridSolOf(p, "X0")
         go == IF p.go0 = "none" THEN gs ELSE GridObsOf(p, p.go0)
+        to == IF p.kind = "tseq" THEN SeqTimeObs[p.to0] ELSE <<>>
     IN [gs |-> gs, go |-> go,
         godef |-> p.go0 = "none",                  \* grid_obs was given as None (it IS grid_sol)
-        to |-> IF p.kind = "tseq" THEN SeqTimeObs[p.to0] ELSE <<>>,
+        to |-> to,
         eq |-> go = gs,                            \* cached decision "no interpolation in space"
+        live |-> [gs |-> gs, go |-> go, to |-> to],
+        heap |-> [P |-> p.th0, Q |-> p.th1],
+        want |-> p.th0, parobj |-> IF p.mode = "param" THEN "P" ELSE "fresh",
         par |-> p.th0, solpar |-> p.th0, sol |-> SeqSolution(p, p.th0)]
 
-Setters == {"set_grid_obs", "set_grid_sol", "set_time_obs"}
+\* slots whose array has been modified in place since it was handed over
+Slots == {"gs", "go", "to"}
+Stale(o) == {s \in Slots : o.live[s] # o[s]}
+
+Setters  == {"set_grid_obs", "set_grid_sol", "set_time_obs"}
+Changers == Setters \cup {"mutate_grid", "reassign"}
+UseActs  == {"pipeline", "forward"}
+ObsActs  == {"observe", "forward", "pipeline"}
 CountOf(S) == Cardinality({i \in 1..Len(hist) : hist[i].a \in S})
 LastIs(S)  == hist # <<>> /\ hist[Len(hist)].a \in S
 \* Solve follows Assemble immediately
-SeqCan     == IsSeq /\ Len(hist) < SeqDepth /\ ~LastIs({"assemble"})
-\* history entry: the call, its argument, the value it sets / returns, the abstract state after it
+SeqCan     == IsSeq /\ Len(hist) < DepthOf(pb) /\ ~LastIs({"assemble"})
+\* history entry: the call, its argument, the value it sets / returns, the abstract state after it;
+\* defined = FALSE: an array handed over as a grid has been modified in place and not handed over again - the value of
+\* an observation is not specified (obs: for the grids as handed over, obslive: for the current values of the arrays)
 Entry(a, arg, val, obs, o) ==
     [a |-> a, arg |-> arg, val |-> val, obs |-> obs, fwd |-> IF obs = <<>> THEN <<>> ELSE MappedObs(pb, obs),
-     exact |-> ExactNow(pb, o), gs |-> o.gs, go |-> o.go, godef |-> o.godef, to |-> o.to, par |-> o.par]
+     exact |-> ExactNow(pb, o), gs |-> o.gs, go |-> o.go, godef |-> o.godef, to |-> o.to, par |-> o.par,
+     heap |-> o.heap, live |-> o.live, defined |-> Stale(o) = {},
+     obslive |-> IF obs = <<>> \/ Stale(o) = {} THEN <<>>
+                 ELSE ObsNow(pb, [o EXCEPT !.gs = o.live.gs, !.go = o.live.go, !.to = o.live.to])]
 SeqFrame == UNCHANGED <<pb, ph, st, traj, calls>>
 
-\* pde.grid_obs = G   (None: the solution grid)
+\* pde.grid_obs = G   (None: the solution grid) - a NEW array
 SetGridObs(k) ==
-    /\ SeqCan /\ CountOf(Setters) < SeqSetters
+    /\ SeqCan /\ pb.mode = "grid" /\ CountOf(Setters) < SeqSetters
     /\ LET g == IF k = "none" THEN obj.gs ELSE GridObsOf(pb, k)
-           o == [obj EXCEPT !.go = g, !.godef = (k = "none"),
+           o == [obj EXCEPT !.go = g, !.godef = (k = "none"), !.live.go = g,
                             !.eq = IF DevStaleGridFlag THEN obj.eq ELSE (g = obj.gs)]
        IN /\ (g # obj.go \/ (obj.godef /\ k # "none"))                  \* not a call that changes nothing
           /\ obj' = o
@@ -517,29 +589,29 @@ SetGridObs(k) ==
 \* pde.grid_sol = X.  Only with an EXPLICIT observation grid: whether a grid_obs given as None follows a later
 \* change of grid_sol is not documented, so the specification is silent there.
 SetGridSol(k) ==
-    /\ SeqCan /\ CountOf(Setters) < SeqSetters
+    /\ SeqCan /\ pb.mode = "grid" /\ CountOf(Setters) < SeqSetters
     /\ ~obj.godef
     /\ GridSolOf(pb, k) # obj.gs
-    /\ LET o == [obj EXCEPT !.gs = GridSolOf(pb, k), !.eq = (obj.go = GridSolOf(pb, k))]
+    /\ LET o == [obj EXCEPT !.gs = GridSolOf(pb, k), !.live.gs = GridSolOf(pb, k), !.eq = (obj.go = GridSolOf(pb, k))]
        IN /\ obj' = o
           /\ hist' = Append(hist, Entry("set_grid_sol", k, o.gs, <<>>, o))
     /\ SeqFrame
 
 \* time_obs = times (time-dependent class)
 SetTimeObs(k) ==
-    /\ SeqCan /\ CountOf(Setters) < SeqSetters
+    /\ SeqCan /\ pb.mode = "grid" /\ CountOf(Setters) < SeqSetters
     /\ pb.kind = "tseq"
     /\ SeqTimeObs[k] # obj.to
-    /\ LET o == [obj EXCEPT !.to = SeqTimeObs[k]]
+    /\ LET o == [obj EXCEPT !.to = SeqTimeObs[k], !.live.to = SeqTimeObs[k]]
        IN /\ obj' = o
           /\ hist' = Append(hist, Entry("set_time_obs", k, o.to, <<>>, o))
     /\ SeqFrame
 
-\* pde.assemble(th) for another parameter (the last solution stays the one of the previous parameter until Solve)
+\* pde.assemble(th) for another parameter, a NEW array (the last solution stays the one of the previous parameter until Solve)
 Assemble(th) ==
-    /\ SeqCan /\ pb.via = "pde" /\ CountOf({"assemble"}) < Level
+    /\ SeqCan /\ pb.mode = "grid" /\ pb.via = "pde" /\ CountOf({"assemble"}) < Level
     /\ th \in {pb.th0, pb.th1} /\ th # obj.par
-    /\ LET o == [obj EXCEPT !.par = th]
+    /\ LET o == [obj EXCEPT !.par = th, !.want = th, !.parobj = "fresh"]
        IN /\ obj' = o
           /\ hist' = Append(hist, Entry("assemble", "", IF pb.kind = "sseq" THEN [th |-> th, A |-> AOf(pb.m, th), f |-> FOf(pb.m, th)]
                                                         ELSE [th |-> th], <<>>, o))
@@ -547,7 +619,7 @@ Assemble(th) ==
 
 \* pde.solve() after a new assembly
 Solve ==
-    /\ IsSeq /\ Len(hist) < SeqDepth /\ pb.via = "pde"
+    /\ IsSeq /\ Len(hist) < DepthOf(pb) /\ pb.via = "pde"
     /\ obj.par # obj.solpar
     /\ LET o == [obj EXCEPT !.sol = SeqSolution(pb, obj.par), !.solpar = obj.par]
        IN /\ obj' = o
@@ -556,34 +628,100 @@ Solve ==
 
 \* pde.observe(last solution)
 Observe ==
-    /\ SeqCan /\ pb.via = "pde"
+    /\ SeqCan /\ pb.mode \in {"grid", "ginp"} /\ pb.via = "pde"
     /\ ~LastIs({"observe"})
     /\ hist' = Append(hist, Entry("observe", "", <<>>, ObserveBy(pb, obj), obj))
     /\ UNCHANGED obj
     /\ SeqFrame
 
-\* PDEModel(pde).forward(th) = Observe(Solve(Assemble(th))) on the same object
+\* PDEModel(pde).forward(th) = Observe(Solve(Assemble(th))) on the same object, th a NEW array
 Forward(th) ==
-    /\ SeqCan /\ pb.via = "model" /\ CountOf({"forward"}) < 2
+    /\ SeqCan /\ pb.mode \in {"grid", "ginp"} /\ pb.via = "model"
+    /\ CountOf({"forward"}) < (IF pb.mode = "grid" THEN 2 ELSE 3)
     /\ th \in {pb.th0, pb.th1}
-    /\ (~LastIs(Setters) => th # obj.solpar)                              \* not a call that changes nothing
-    /\ LET o == [obj EXCEPT !.par = th, !.solpar = th, !.sol = SeqSolution(pb, th)]
+    /\ ((~LastIs(Changers) \/ pb.mode = "ginp") => th # obj.solpar)       \* not a call that changes nothing (ginp: alternate)
+    /\ LET o == [obj EXCEPT !.par = th, !.want = th, !.parobj = "fresh", !.solpar = th, !.sol = SeqSolution(pb, th)]
        IN /\ obj' = o
           /\ hist' = Append(hist, Entry("forward", "", [th |-> th, sol |-> o.sol], ObserveBy(pb, o), o))
     /\ SeqFrame
 
-SeqThetas == { <<1, -1>>, <<2, 1>>, <<0, 2>> }        \* the parameters th0, th1 of the two classes
+SeqThetas == { <<1, -1>>, <<2, 1>>, <<0, 2>> }        \* the parameters th0, th1, th2 of the two classes
+
+\* ---- mode "param": parameter arrays with an identity ------------------------
+ParObjs   == {"P", "Q"}
+\* the array itself / a copy of it (equal value, another identity)
+ArgNames  == IF Level < 2 THEN {"P", "Pcopy", "Q"} ELSE {"P", "Pcopy", "Q", "Qcopy"}
+ArgObj(a)    == IF a \in {"P", "Pcopy"} THEN "P" ELSE "Q"
+ArgIsCopy(a) == a \in {"Pcopy", "Qcopy"}
+\* the array o has been supplied to the object before (P: at construct - assemble - solve)
+Supplied(o) == o = "P" \/ \E i \in 1..Len(hist) : hist[i].a \in UseActs /\ hist[i].arg = o
+
+\* o[...] = th : the user modifies the array IN PLACE (same identity, new value); no call on the PDE object
+MutateParam(o, th) ==
+    /\ SeqCan /\ pb.mode = "param" /\ CountOf({"mutate_param"}) < ParMutations
+    /\ th \in (IF Level < 2 THEN {pb.th0, pb.th2} ELSE {pb.th0, pb.th1, pb.th2}) /\ th # obj.heap[o]
+    /\ Supplied(o)
+    /\ ~(LastIs({"mutate_param"}) /\ hist[Len(hist)].arg = o)
+    /\ LET o1 == [obj EXCEPT !.heap[o] = th]
+       IN /\ obj' = o1
+          /\ hist' = Append(hist, Entry("mutate_param", o, th, <<>>, o1))
+    /\ SeqFrame
+
+\* via = "pde": pde.assemble(a), pde.solve(), pde.observe(solution) ("pipeline");  via = "model": PDEModel.forward(a).
+\* The parameter is the CURRENT value of the array; the deviation keeps the old system for the same identity.
+Use(a) ==
+    /\ SeqCan /\ pb.mode = "param"
+    /\ LET ob   == ArgObj(a)
+           th   == obj.heap[ob]
+           skip == DevAssembleSkipsSameObject /\ ~ArgIsCopy(a) /\ obj.parobj = ob
+           par1 == IF skip THEN obj.par ELSE th
+           o    == [obj EXCEPT !.want = th, !.parobj = IF ArgIsCopy(a) THEN "fresh" ELSE ob,
+                               !.par = par1, !.solpar = par1, !.sol = SeqSolution(pb, par1)]
+           val  == IF pb.kind = "sseq" THEN [th |-> th, A |-> AOf(pb.m, par1), f |-> FOf(pb.m, par1), sol |-> o.sol]
+                   ELSE [th |-> th, sol |-> o.sol]
+       IN /\ obj' = o
+          /\ hist' = Append(hist, Entry(IF pb.via = "pde" THEN "pipeline" ELSE "forward", a, val, ObserveBy(pb, o), o))
+    /\ SeqFrame
+
+\* ---- mode "ginp": grid arrays with an identity ------------------------------
+GinpVals(p, slot) ==
+    CASE slot = "go" -> {GridObsOf(p, "X0"), GridObsOf(p, "X1"), GridObsOf(p, "X2")}
+      [] slot = "gs" -> {GridSolOf(p, "X0"), GridSolOf(p, "X1")}
+      [] slot = "to" -> IF p.kind = "tseq" /\ Level >= 2 THEN {SeqTimeObs.final, SeqTimeObs.one, SeqTimeObs.mid} ELSE {}
+GinpAllVals == UNION {GinpVals(p, s) : p \in SeqProblems, s \in Slots}
+
+\* g[:] = v : the user modifies an array that was handed over as a grid IN PLACE (no call on the PDE object)
+MutateGrid(slot, v) ==
+    /\ SeqCan /\ pb.mode = "ginp" /\ CountOf({"mutate_grid"}) < SeqSetters
+    /\ v \in GinpVals(pb, slot) /\ v # obj.live[slot] /\ Len(v) = Len(obj.live[slot])
+    /\ LET o == [obj EXCEPT !.live[slot] = v]
+       IN /\ obj' = o
+          /\ hist' = Append(hist, Entry("mutate_grid", slot, v, <<>>, o))
+    /\ SeqFrame
+
+\* pde.grid_obs = g / pde.grid_sol = g with the SAME (modified) array; time_obs has no setter: a new object is
+\* constructed with the same three arrays (so all three are handed over again)
+Reassign(slot) ==
+    /\ SeqCan /\ pb.mode = "ginp" /\ slot \in Stale(obj)
+    /\ LET o1 == CASE slot = "go" -> [obj EXCEPT !.go = obj.live.go]
+                   [] slot = "gs" -> [obj EXCEPT !.gs = obj.live.gs]
+                   [] slot = "to" -> [obj EXCEPT !.go = obj.live.go, !.gs = obj.live.gs, !.to = obj.live.to]
+           o  == [o1 EXCEPT !.eq = IF DevSetterSkipsSameObject /\ slot # "to" THEN obj.eq ELSE (o1.go = o1.gs)]
+       IN /\ obj' = o
+          /\ hist' = Append(hist, Entry("reassign", slot, o[slot], <<>>, o))
+    /\ SeqFrame
 
 \* ---- invariants ------------------------------------------------------------
-\* every Observe / Forward returns the observation for the CURRENT grids and times
+\* every Observe / Forward returns the observation for the CURRENT grids and times (the grids handed over last; silent
+\* while an array handed over has been modified in place and not handed over again)
 SeqObserveCurrent ==
-    (IsSeq /\ LastIs({"observe", "forward"})) => hist[Len(hist)].obs = ObsNow(pb, obj)
+    (IsSeq /\ LastIs(ObsActs) /\ Stale(obj) = {}) => hist[Len(hist)].obs = ObsNow(pb, obj)
 \* the cached decision is the one for the current grids after every call
 SeqFlagFresh == IsSeq => obj.eq = (obj.go = obj.gs)
 \* the last solution solves the discrete problem of the parameter it was assembled for; after Solve / Forward that is
 \* the parameter assembled last
 SeqSolutionCurrent ==
-    (IsSeq /\ (hist = <<>> \/ LastIs({"solve", "forward"}))) =>
+    (IsSeq /\ (hist = <<>> \/ LastIs({"solve", "forward", "pipeline"}))) =>
         /\ obj.solpar = obj.par
         /\ IF pb.kind = "sseq" THEN QMV(AOf(pb.m, obj.solpar), obj.sol) = FOf(pb.m, obj.solpar)
            ELSE /\ obj.sol[1] = QVAdd(IV(pb.m.c0), QMV(IM(pb.m.U0), IV(obj.solpar)))
@@ -592,16 +730,42 @@ SeqSolutionCurrent ==
                           tl == IF pb.method = "forward_euler" THEN pb.T[i] ELSE pb.T[i + 1]
                           ua == IF pb.method = "forward_euler" THEN obj.sol[i] ELSE obj.sol[i + 1]
                       IN QVSub(obj.sol[i + 1], obj.sol[i]) = QVScale(dt, QVAdd(QMV(ATime(pb.m, tl), ua), FTime(pb.m, obj.solpar, tl)))
+\* the assembled system, the solution and the observation belong to the CURRENT VALUE of the supplied parameter array -
+\* whatever the identity of the array and whatever was assembled before
+SeqParamCurrent ==
+    /\ (IsSeq /\ LastIs({"assemble", "forward", "pipeline"})) => obj.par = obj.want
+    /\ (IsSeq /\ pb.mode = "param" /\ LastIs(UseActs)) =>
+          LET e  == hist[Len(hist)]
+              th == obj.heap[ArgObj(e.arg)]
+              u  == SeqSolution(pb, th)
+          IN /\ obj.par = th /\ obj.solpar = th /\ e.val.th = th
+             /\ e.val.sol = u
+             /\ (pb.kind = "sseq" => e.val.A = AOf(pb.m, th) /\ e.val.f = FOf(pb.m, th))
+             /\ e.obs = ObsNow(pb, [obj EXCEPT !.sol = u])
+\* equal parameter values give equal results: a copy and the array itself; f(th1) . f(th2) . f(th1): third = first
+SeqSameParamSameValue ==
+    (IsSeq /\ pb.mode = "param") =>
+        \A i, j \in 1..Len(hist) :
+            (hist[i].a \in UseActs /\ hist[j].a \in UseActs) =>
+                (hist[i].val.th = hist[j].val.th => hist[i].obs = hist[j].obs /\ hist[i].val.sol = hist[j].val.sol)
+\* no call but the user's own in-place modification changes an array of the user (parameters and grids)
+SeqArgsUntouched ==
+    IsSeq => \A i \in 1..Len(hist) :
+                LET before == IF i = 1 THEN SeqNew(pb) ELSE hist[i - 1]
+                IN /\ (hist[i].a # "mutate_param" => hist[i].heap = before.heap)
+                   /\ (hist[i].a \notin Changers => hist[i].live = before.live)
 \* the bounds of the behaviours
-SeqBounds == IsSeq => Len(hist) <= SeqDepth /\ CountOf(Setters) <= SeqSetters
+SeqBounds == IsSeq => /\ Len(hist) <= DepthOf(pb) /\ CountOf(Setters \cup {"mutate_grid"}) <= SeqSetters
+                      /\ CountOf({"mutate_param"}) <= ParMutations
 
 EmitSeq ==
-    (Emit /\ IsSeq /\ LastIs({"observe", "forward"})) =>
+    \* mode "param": Use is enabled in every state below the bound, so the behaviours of full length contain every prefix
+    (Emit /\ IsSeq /\ LastIs(ObsActs) /\ (pb.mode = "param" => Len(hist) = ParDepth)) =>
         PrintT("@@CASE " \o ToJson(
-            [kind |-> pb.kind, via |-> pb.via, m |-> pb.m, T |-> IF pb.kind = "tseq" THEN pb.T ELSE <<>>,
-             method |-> IF pb.kind = "tseq" THEN pb.method ELSE "", th0 |-> pb.th0, th1 |-> pb.th1,
+            [kind |-> pb.kind, mode |-> pb.mode, via |-> pb.via, m |-> pb.m, T |-> IF pb.kind = "tseq" THEN pb.T ELSE <<>>,
+             method |-> IF pb.kind = "tseq" THEN pb.method ELSE "", th0 |-> pb.th0, th1 |-> pb.th1, th2 |-> pb.th2,
              go0 |-> pb.go0, to0 |-> pb.to0, omap |-> pb.omap,
-             new |-> LET o == SeqNew(pb) IN [gs |-> o.gs, go |-> o.go, to |-> o.to, sol |-> o.sol],
+             new |-> LET o == SeqNew(pb) IN [gs |-> o.gs, go |-> o.go, to |-> o.to, sol |-> o.sol, heap |-> o.heap],
              hist |-> hist]) \o " @@END")
 
 (***************************************************************************)
@@ -630,5 +794,9 @@ Next == \/ Start
         \/ Solve
         \/ Observe
         \/ \E th \in SeqThetas : Forward(th)
+        \/ \E o \in ParObjs, th \in SeqThetas : MutateParam(o, th)
+        \/ \E a \in ArgNames : Use(a)
+        \/ \E slot \in Slots, v \in GinpAllVals : MutateGrid(slot, v)
+        \/ \E slot \in Slots : Reassign(slot)
 Spec == Init /\ [][Next]_vars
 =============================================================================
